@@ -47,6 +47,77 @@ def _in(tree, node):
     return any(x is node for x in ast.walk(tree))
 
 
+def _writer_roles(w) -> dict[str, str]:
+    table: dict[str, str] = {}
+    rets = [n.value for n in ast.walk(w.node) if isinstance(n, ast.Return)
+            and isinstance(n.value, ast.Name)]
+    if len({x.id for x in rets}) == 1:
+        table[rets[0].id] = "data"
+    for l in ast.walk(w.node):
+        if not (isinstance(l, ast.For) and isinstance(l.target, ast.Tuple)
+                and len(l.target.elts) == 2
+                and all(isinstance(e, ast.Name) for e in l.target.elts)):
+            continue
+        it = norm(l.iter)
+        k_, v_ = (e.id for e in l.target.elts)
+        if re.fullmatch(r"graph\.(atom|bond)_stereo\.items\(\)", it):
+            table[v_] = "stereo"
+        elif re.fullmatch(r"graph\.(atom|bond)_stereo_changes\.items\(\)", it):
+            table[v_] = "change_dict"
+    for l in ast.walk(w.node):
+        if isinstance(l, ast.For) and isinstance(l.target, ast.Tuple) and \
+                len(l.target.elts) == 2 and all(
+                isinstance(e, ast.Name) for e in l.target.elts) and \
+                isinstance(l.iter, ast.Call) and isinstance(
+                l.iter.func, ast.Attribute) and l.iter.func.attr == "items" \
+                and isinstance(l.iter.func.value, ast.Name) and table.get(
+                l.iter.func.value.id, l.iter.func.value.id) == "change_dict":
+            table[l.target.elts[0].id] = "change"
+            table[l.target.elts[1].id] = "stereo"
+    return table
+
+
+def _reader_roles(r) -> dict[str, str]:
+    table: dict[str, str] = {}
+    for n in ast.walk(r.node):
+        if isinstance(n, ast.Assign) and len(n.targets) == 1 and isinstance(
+                n.targets[0], ast.Tuple) and len(n.targets[0].elts) == 2 and \
+                all(isinstance(e, ast.Name) for e in n.targets[0].elts) and \
+                re.fullmatch(r"next\(iter\(json\.loads\(\w+\)\.items\(\)\)\)",
+                             norm(n.value)):
+            table[n.targets[0].elts[0].id] = "graph_type"
+            table[n.targets[0].elts[1].id] = "graph_payload"
+    recv = {}
+    for c in ast.walk(r.node):
+        if isinstance(c, ast.Call) and isinstance(c.func, ast.Attribute) and \
+                c.func.attr == "add_atom" and isinstance(
+                c.func.value, ast.Name):
+            recv[c.func.value.id] = recv.get(c.func.value.id, 0) + 1
+    if len(recv) == 1:
+        table[next(iter(recv))] = "graph"
+    return table
+
+
+def _payload_roles(pl) -> dict[str, str]:
+    table: dict[str, str] = {}
+    params = pl.params()
+    if params:
+        table[params[-1]] = "payload"
+    for n in ast.walk(pl.node):
+        if isinstance(n, ast.Assign) and len(n.targets) == 1 and isinstance(
+                n.targets[0], ast.Tuple) and len(n.targets[0].elts) == 2 and \
+                isinstance(n.targets[0].elts[0], ast.Name) and isinstance(
+                n.targets[0].elts[1], ast.Tuple) and len(
+                n.targets[0].elts[1].elts) == 2 and all(
+                isinstance(e, ast.Name)
+                for e in n.targets[0].elts[1].elts) and re.fullmatch(
+                r"next\(iter\(\w+\.items\(\)\)\)", norm(n.value)):
+            table[n.targets[0].elts[0].id] = "class_name"
+            table[n.targets[0].elts[1].elts[0].id] = "atoms"
+            table[n.targets[0].elts[1].elts[1].id] = "parity"
+    return table
+
+
 def run(prog: Program, res: Result, tier: str) -> None:
     res.rule("J-SECTIONS", "for every class guard, the set of section keys "
              "written by as_dict equals the set read by json_deserialize")
@@ -74,6 +145,12 @@ def run(prog: Program, res: Result, tier: str) -> None:
     from ..core import FuncInfo, unroll_literal_loops
     r = FuncInfo(r.qual, r.module, unroll_literal_loops(r.node), r.cls)
     w = FuncInfo(w.qual, w.module, unroll_literal_loops(w.node), w.cls)
+    # role based names: the text patterns below must not depend on what the
+    # locals happen to be called
+    from ..iso import rename_locals
+    w = rename_locals(w, _writer_roles(w))
+    r = rename_locals(r, _reader_roles(r))
+    pl = rename_locals(pl, _payload_roles(pl))
     # -- sections -------------------------------------------------------------
     written: dict[tuple, set] = {}
     write_nodes = {}
